@@ -251,6 +251,8 @@ def method(ex, st, recv, name, args, kw, node=None):
             try: recv.encode(*args)
             except (LookupError, ValueError) as e: yield st, Raise(ex.new_builtin_exc(st, type(e).__name__ if type(e).__name__ in ("LookupError", "ValueError", "UnicodeEncodeError") else "LookupError", [str(e)])); return
             yield st, Opaque(); return
+        if name == "format" and isinstance(recv, str):
+            yield st, ex.format_method(st, recv, list(args), dict(kw or {})); return
         if name == "split" and isinstance(recv, str) and all(isinstance(a, str) for a in args): yield st, recv.split(*args); return
         if name == "strip" and not args:
             if isinstance(recv, str): yield st, recv.strip(); return
@@ -321,7 +323,7 @@ def method(ex, st, recv, name, args, kw, node=None):
         tgt = node.func.value; rl = args[0]; n0 = recv.length; cnt = lift(rl.count).z
         item = lift_to(recv.elem_ty, rl.item if recv.elem_ty.kind in ("tuple", "opt") else unopt(rl.item))
         new = UFL(recv.elem_ty, (lambda i, r=recv, item=item, n0=n0: z3.If(i >= n0, item, r.at(i))), n0 + z3.If(cnt > 0, cnt, 0))
-        for s2, _ in ex.assign(st, tgt, new): yield s2, None
+        for s2, _ in ex.mutate(st, tgt, recv, new): yield s2, None
         return
     if isinstance(recv, UFL) and name == "index" and len(args) == 1:
         # list.index(x): the first position holding x, or ValueError when no position does
@@ -338,18 +340,18 @@ def method(ex, st, recv, name, args, kw, node=None):
         tgt = node.func.value; k = lift(args[0]).z; item = lift_to(recv.elem_ty, args[1] if recv.elem_ty.kind in ("tuple", "opt") else unopt(args[1])); n0 = recv.length
         pos = z3.If(k < 0, z3.If(n0 + k < 0, 0, n0 + k), z3.If(k > n0, n0, k))
         new = UFL(recv.elem_ty, (lambda i, r=recv, item=item, pos=pos: z3.If(i < pos, r.at(i), z3.If(i == pos, item, r.at(i - 1)))), n0 + 1)
-        for s2, _ in ex.assign(st, tgt, new): yield s2, None
+        for s2, _ in ex.mutate(st, tgt, recv, new): yield s2, None
         return
     if isinstance(recv, UFL) and name in ("append", "add"):      # a Python set modelled as a list: add == append (membership and add only)
         tgt = node.func.value; item = lift_to(recv.elem_ty, args[0] if recv.elem_ty.kind in ("tuple", "opt") else unopt(args[0])); n0 = recv.length
         new = UFL(recv.elem_ty, (lambda i, r=recv, item=item, n0=n0: z3.If(i == n0, item, r.at(i))), n0 + 1)
-        for s2, _ in ex.assign(st, tgt, new): yield s2, None
+        for s2, _ in ex.mutate(st, tgt, recv, new): yield s2, None
         return
     if isinstance(recv, Sym) and recv.ty.kind == "seqlist" and name == "append":
         # in-place append on a symbolic list held in a local: rebind the local (no aliasing assumed)
         tgt = node.func.value
         new = Sym(recv.ty, z3.Concat(recv.z, z3.Unit(lift(args[0]).z)))
-        for s2, _ in ex.assign(st, tgt, new): yield s2, None
+        for s2, _ in ex.mutate(st, tgt, recv, new): yield s2, None
         return
     if isinstance(recv, list):
         if name in ("append", "add"): recv.append(args[0]); yield st, None; return
